@@ -1,6 +1,6 @@
 # -*- coding: utf-8 -*-
 """C12 - hooks: nested order, after-hooks always paired, hook faults contained (E3 fault-point enumeration)."""
-import itertools
+import itertools, sys
 from vlib import prog as P, runcases, refrun, harness
 from vlib.core import digest
 
@@ -292,6 +292,110 @@ def subset_cases(tier):
                 yield (prog, "default", {k: "exc"}, subset)
 
 
+# ---- a hook fault whose element-level failure is absorbed on the way up -------------------------------------------
+ABSORB_TEXT = u"""Feature: F
+  @auto
+  Scenario: A
+    Given a step
+    When the outer step swallows the failure of its sub-step
+    Then a step
+
+  Scenario Outline: O <x>
+    Given a step
+    Examples:
+      | x |
+      | 1 |
+      | 2 |
+
+  Scenario: Z
+    Given a step
+"""
+ABSORB_HOOKS = ("before_all", "after_all", "before_feature", "after_feature", "before_scenario", "after_scenario",
+                "before_step", "after_step", "before_tag", "after_tag")
+
+
+def absorb_case(case):
+    """case = (mode, k, kind): mode "retry" = every scenario is patched with the documented auto-retry (2 attempts),
+    "plain" = not; the k-th hook invocation raises ONCE. A failing attempt that is retried successfully, and a
+    sub-step of execute_steps() whose failure the calling step catches, both absorb the ELEMENT's failure - the run
+    must fail all the same ("an exception in a hook ... makes the run fail"), nothing escapes, after_all is called."""
+    mode, k, kind = case
+    from behave.parser import parse_feature
+    from behave.step_registry import StepRegistry
+    from behave.runner import ModelRunner
+    from behave.configuration import Configuration
+    from behave.contrib.scenario_autoretry import patch_scenario_with_autoretry
+    harness.reset_globals()
+    feature = parse_feature(ABSORB_TEXT, filename="absorb.feature")
+    reg = StepRegistry()
+
+    def a_step(ctx):
+        pass
+
+    def outer(ctx):
+        try:
+            ctx.execute_steps(u"Given a step")
+        except AssertionError:
+            pass        # user code that tolerates the failure of the sub-step
+    reg.add_step_definition("step", u"a step", a_step)
+    reg.add_step_definition("step", u"the outer step swallows the failure of its sub-step", outer)
+    if mode == "retry":
+        for sc in feature.walk_scenarios():
+            patch_scenario_with_autoretry(sc, max_attempts=2)
+    trace, raised = [], []
+
+    def make_hook(name):
+        def hook(ctx, *args):
+            i = len(trace)
+            trace.append(name)
+            if i == k:
+                raised.append(name)
+                if kind == "assert":
+                    raise AssertionError("fault in %s #%d" % (name, i))
+                raise RuntimeError("fault in %s #%d" % (name, i))
+        return hook
+    old = sys.stdout, sys.stderr
+    import io as _io
+    sys.stdout, sys.stderr = _io.StringIO(), _io.StringIO()
+    escaped, verdict = None, None
+    try:
+        config = Configuration(["-f", "null"], load_config=False)    # the summary reporter binds sys.stdout here
+        runner = ModelRunner(config, [feature], step_registry=reg)
+        runner.hooks = {n: make_hook(n) for n in ABSORB_HOOKS}
+        verdict = bool(runner.run())
+    except BaseException as e:      # noqa
+        escaped = type(e).__name__
+    finally:
+        sys.stdout, sys.stderr = old
+    v = []
+    site = raised[0] if raised else "-"
+    if escaped:
+        v.append(({"subcheck": "absorbed", "clause": "exception-escapes-run", "exc": escaped, "fault": site, "mode": mode},
+                  "fault in %s (#%d, %s): run() raised %s" % (site, k, mode, escaped)))
+    else:
+        if raised and not verdict:
+            v.append(({"subcheck": "absorbed", "clause": "hook-fault-not-failing", "fault": site, "mode": mode},
+                      "fault in %s (#%d, %s): a hook raised but run() reports success; scenario statuses %s"
+                      % (site, k, mode, [sc.status.name for sc in feature.walk_scenarios()])))
+        if not raised and verdict:
+            v.append(({"subcheck": "absorbed", "clause": "false-red", "mode": mode}, "no fault, run() reports failure"))
+        if trace[-1:] != ["after_all"] and site != "before_all":
+            v.append(({"subcheck": "absorbed", "clause": "after-all-not-called", "fault": site, "mode": mode},
+                      "fault in %s (#%d, %s): last hook is %r" % (site, k, mode, trace[-1:])))
+    return {"v": v, "nt": digest(case) if raised else None, "out": ("absorbed", mode, site, verdict, escaped),
+            "dg": (verdict, escaped, tuple(trace), [sc.status.name for sc in feature.walk_scenarios()])}
+
+
+def absorb_cases(tier):
+    for mode in ("plain", "retry"):
+        n = len(absorb_case((mode, -1, "exc"))["dg"][2])
+        yield (mode, -1, "exc")
+        for k in range(n):
+            yield (mode, k, "exc")
+            yield (mode, k, "assert")
+
+
+
 def pair_cases(tier):
     for si, shp in enumerate(shapes()):
         prog = (shp, SECOND)
@@ -317,6 +421,8 @@ def run(ctx):
               name="one non-passing step, then a single hook fault at every invocation")
     ctx.sweep(subset_case, subset_cases(ctx.tier), chunk=32,
               name="the environment provides only a subset of the hooks (single hooks, all but one, halves, pairs)")
+    ctx.sweep(absorb_case, absorb_cases(ctx.tier), chunk=8,
+              name="a hook fault whose element failure is absorbed (auto-retry succeeds / the caller of execute_steps catches it)")
     if not ctx.quick:
         ctx.sweep(run_case, pair_cases(ctx.tier), chunk=64, name="pairs of hook faults")
     sites = set()
